@@ -266,8 +266,10 @@ func (ex *Exec) callFuncInner(p *Path, fn *types.Func, recv *Value, args []Value
 	if c := ex.w.Contracts[key]; c != nil && ex.contractApplies(c, fn) {
 		return ex.applyContract(p, c, fn, recv, args, pos)
 	}
-	if c := ex.w.Contracts["emitted."+fn.Name()]; c != nil && ex.emittedPkg(fn) {
-		return ex.applyContract(p, c, fn, recv, args, pos)
+	if ex.emittedPkg(fn) {
+		if c := ex.w.emittedContract(fn); c != nil {
+			return ex.applyContract(p, c, fn, recv, args, pos)
+		}
 	}
 	if fi := ex.w.Funcs[full]; fi != nil && fi.Decl.Body != nil {
 		if fn.Type().(*types.Signature).Results().Len() == 0 && !ex.traceEvents && !ex.safety && !ex.emittedPkg(fn) && ex.bodyIsHeapPure(fi, 0) && !ex.writesThroughParams(fi) {
@@ -300,6 +302,7 @@ func (ex *Exec) callFuncInner(p *Path, fn *types.Func, recv *Value, args []Value
 			p.Assume(ex.c.typeInvariant(v))
 			out = append(out, v)
 		}
+		ex.libraryPostFacts(p, full, out)
 		return out
 	}
 	if ex.isObserverPkg(fn) || ex.isGeneratedGetter(fn) {
@@ -435,7 +438,15 @@ func (ex *Exec) tryInline(p *Path, fi *FuncInfo, recv *Value, args []Value, pos 
 			vals, ok = nil, false
 		}
 	}()
-	return ex.inlineCall(p, fi, recv, args, pos), true
+	nPC := len(p.pc)
+	vals = ex.inlineCall(p, fi, recv, args, pos)
+	if ex.quantFacts != nil && len(p.pc) > nPC {
+		// inside a quantifier body: what the inlined code assumed may mention bound variables
+		extra := append([]string(nil), p.pc[nPC:]...)
+		p.pc = p.pc[:nPC]
+		*ex.quantFacts = append(*ex.quantFacts, extra...)
+	}
+	return vals, true
 }
 
 func (ex *Exec) inlineCall(p *Path, fi *FuncInfo, recv *Value, args []Value, pos token.Pos) []Value {
@@ -807,7 +818,7 @@ func (ex *Exec) applyContract(p *Path, c *Contract, fn *types.Func, recv *Value,
 		}
 		caller := ex.evalClause(p, ex.contract.Decreases.E, false)
 		p.names = saved
-		ex.addObl(p, fmt.Sprintf("%s#decreases@%s", ex.funcKey, ex.w.pos(pos)), "decreases", c.Decreases.Text,
+		ex.addObl(p, fmt.Sprintf("%s#decreases@%s", ex.funcKey, ex.siteLabel(pos)), "decreases", c.Decreases.Text,
 			"(and (>= "+callee+" 0) (< "+callee+" "+caller+"))", pos, "recursive call to "+c.Key)
 	}
 	// preconditions
@@ -823,7 +834,7 @@ func (ex *Exec) applyContract(p *Path, c *Contract, fn *types.Func, recv *Value,
 		if nm == "" {
 			nm = fmt.Sprint(i)
 		}
-		ex.addObl(p, fmt.Sprintf("%s#call:%s.requires[%s]@%s", ex.funcKey, c.Key, nm, ex.w.pos(pos)), "requires", r.Text, g, pos, "")
+		ex.addObl(p, fmt.Sprintf("%s#call:%s.requires[%s]@%s", ex.funcKey, c.Key, nm, ex.siteLabel(pos)), "requires", r.Text, g, pos, "")
 	}
 	// pre-state for old()
 	oldHeap := map[string]string{}
